@@ -226,7 +226,9 @@ class G:
         return [self.r.choice(opts)], "<hr />\n"
 
     CODE_LINES = ["x = 1", "<b>&amp;</b>", "  indented", "*not emph*", "[a](b)", "# no heading", "- no list", "> no quote", "`tick`", "\\escape", "a\tb" , "~~", "``",
-                  "```", "   ```", "  ````", "~~~", "   ~~~", " ~~~~", "    ```", "``` x"]
+                  "```", "   ```", "  ````", "~~~", "   ~~~", " ~~~~", "    ```", "``` x",
+                  # lines that only look blank: form feed, vertical tab, no-break space, NEL, em space are not CommonMark white space
+                  "\x0c", "\x0b", "\u00a0", "\u0085", "\u2003", "\x0c \x0c"]
     INFOS = [("", ""), ("", ""), ("go", "go"), ("c++", "c++"), ("rust extra words", "rust"), ("c\\+\\+", "c++"), ("a&amp;b", "a&b"), ("x\\_y z", "x_y"), ("\\#lang", "#lang"), ("q&quot;", "q\"")]
 
     def fenced(self):
